@@ -156,7 +156,7 @@ func (g *histGen) op() {
 		if !valid && r.Chance(20) {
 			b.add("nil")
 		} else {
-			b.add([]string{"wpkh0", "wpkh1", "sh.wpkh0", "wsh.ms2", "wsh.ms1", "sh.wsh.ms2", "tr", "pkh0", "junk"}[r.Intn(9)])
+			b.add([]string{"wpkh0", "wpkh1", "sh.wpkh0", "wsh.ms2", "wsh.ms1", "sh.wsh.ms2", "tr", "pkh0", "junk", "e"}[r.Intn(10)])
 		}
 		b.add(b01(r.Chance(25)))
 	case 11:
